@@ -31,11 +31,9 @@ EnumOK(e) == IF e.defined
              THEN /\ e.disc = e.code /\ (e.code \in DOMAIN Reg(e.table) => Means(Reg(e.table), e.code, e.sym))
                   /\ NotOthersName(IF e.table = "status" THEN StatusAll ELSE Reg(e.table), e.code, e.sym)
              ELSE TRUE
-(* every value the properties rely on must be recognised *)
-Required(t) == CASE t = "delim" -> {1, 2, 3, 4, 5}
-                 [] t = "vtag"  -> {16, 18, 19, 33, 34, 35, 48, 49, 50, 51, 52, 53, 54, 55, 65, 66, 68, 69, 70, 71, 72, 73, 74}
-                 [] t = "op"    -> {2, 5, 6, 8, 9, 10, 11, 18, 16386, 16388}
-                 [] t = "printer-state" -> {3, 4, 5}
+(* every RFC 8011 status code has its own symbol (C16), and the ten operations the builders emit are the registered *)
+(* ones; in which Rust enum a structural tag lives, or whether it is listed at all, is not the property's business  *)
+Required(t) == CASE t = "op"    -> {2, 5, 6, 8, 9, 10, 11, 18, 16386, 16388}
                  [] t = "status" -> DOMAIN StatusReg
                  [] OTHER -> {}
 RequiredOK(e) == e.code \in Required(e.table) => e.defined
